@@ -74,22 +74,120 @@ def py_prim(tok):
     raise KeyError(tok)
 
 
-def prim_arity(tok):
-    """(inputs, outputs) the Python function really has; None = any."""
-    p = tok.split(":")
-    return {"add": (2, 1), "swap": (2, 2), "copy": (1, 2), "discard": (None, 0),
-            "scale": (1, 1), "fail": (None, None)}.get(p[0]) or {
-        "aff": lambda: (int(p[1]), int(p[2])), "proj": lambda: (int(p[1]), 1),
-        "pack": lambda: (int(p[1]), 1), "nest": lambda: (int(p[1]), 1)}[p[0]]()
+def identity(m):
+    """What the sub-diagram Id(m) draws: m wires straight through (stated here, not read off
+    the code): one value is returned bare, otherwise the tuple."""
+    def f(*xs):
+        if len(xs) != m:
+            raise TypeError("arity")
+        return xs[0] if len(xs) == 1 else xs
+    return f
 
 
-def make_box(tok, m, n):
+class Falsy:
+    """A legitimate callable whose truth value is False (`__bool__`)."""
+    def __init__(self, fn):
+        self.fn = fn
+
+    def __call__(self, *xs):
+        return self.fn(*xs)
+
+    def __bool__(self):
+        return False
+
+
+class EmptyTable(dict):
+    """A callable lookup table with a default rule, still empty (so `bool(table)` is False)."""
+    def __init__(self, fn):
+        super().__init__()
+        self.fn = fn
+
+    def __call__(self, *xs):
+        return self[xs] if xs in self else self.fn(*xs)
+
+
+class EmptyList(list):
+    """A callable empty container (`len() == 0`)."""
+    def __init__(self, fn):
+        super().__init__()
+        self.fn = fn
+
+    def __call__(self, *xs):
+        return self.fn(*xs)
+
+    __hash__ = object.__hash__
+
+
+WRAPS = {"falsy": Falsy, "table": EmptyTable, "list": EmptyList}
+STD = ("add", 2, 1, "ADD"), ("swap", 2, 2, "SWAP"), ("copy", 1, 2, "COPY"), ("discard", 1, 0, "DISCARD")
+SHARED_NAMES = ["<lambda>", "f", "g", "swap", "copy", "add", "discard"]
+
+
+def tag(box, tok, fn):
+    """Harness-side truth about a box, kept apart from what the library stored:
+    `_c19tok` the pool token sent to the Lean model (None: no model counterpart),
+    `_c19fn` the function the box was GIVEN (the oracle never reads `box.function` back)."""
+    box._c19tok, box._c19fn = tok, fn
+    box.__dict__.setdefault("_c19falsy", False)
+    return box
+
+
+def tag_generators():
     from discopy import cartesian
-    std = {("add", 2, 1): cartesian.ADD, ("swap", 2, 2): cartesian.SWAP,
-           ("copy", 1, 2): cartesian.COPY, ("discard", 1, 0): cartesian.DISCARD}
-    if (tok, m, n) in std:
-        return std[(tok, m, n)]
-    return cartesian.Box(tok, m, n, py_prim(tok))
+    for tok, _, _, attr in STD:
+        tag(getattr(cartesian, attr), tok, py_prim(tok))
+
+
+def tok_of(box):
+    return box._c19tok
+
+
+def make_box(tok, m, n, name=None, wrap=None, via_disco=False):
+    """A cartesian.Box declared m -> n around the pool function `tok`.
+    name=None: the token is the name (and the library's own ADD/SWAP/COPY/DISCARD are used when
+    they fit); otherwise the given name — several boxes of a diagram may share it.
+    wrap: pass the function inside a falsy callable.  via_disco: build with the `disco` decorator
+    (the name is then the function's `__name__`: '<lambda>' or 'f' for the whole pool)."""
+    from discopy import cartesian
+    if name in (None, tok) and wrap is None and not via_disco:
+        for t, a, b, attr in STD:
+            if (tok, m, n) == (t, a, b):
+                return getattr(cartesian, attr)
+    fn = identity(int(tok.split(":")[1])) if tok.startswith("ident:") else py_prim(tok)
+    given = cartesian.Id(int(tok.split(":")[1])) if tok.startswith("ident:") else fn
+    if wrap is not None and not tok.startswith("ident:"):
+        given = WRAPS[wrap](fn)
+    if via_disco and hasattr(given, "__name__"):
+        return tag(cartesian.disco(m, n)(given), tok, fn)
+    box = tag(cartesian.Box(tok if name is None else name, m, n, given), tok, fn)
+    box._c19falsy = not given
+    return box
+
+
+def sub_box(name, inner):
+    """A hierarchical box: its function is the cartesian diagram `inner`.  No model counterpart;
+    the oracle interprets the inner diagram with `splice` as well."""
+    from discopy import cartesian
+    dom, boxes, offsets = len(inner.dom), list(inner.boxes), list(inner.offsets)
+
+    def fn(*xs):
+        return pack_result(splice(dom, boxes, offsets, xs)[0])
+    return tag(cartesian.Box(name, len(inner.dom), len(inner.cod), inner), None, fn)
+
+
+def safe_repr(x, cap=300):
+    try:
+        return repr(x)[:cap]
+    except Exception as exc:       # Box.__repr__ reads box.function
+        return "<repr raised %s>" % type(exc).__name__
+
+
+def name_collisions(boxes):
+    """Number of (name, dom, cod) classes of the diagram holding >= 2 different functions."""
+    seen = {}
+    for b in boxes:
+        seen.setdefault((b.name, len(b.dom), len(b.cod)), set()).add(id(b._c19fn))
+    return sum(1 for v in seen.values() if len(v) >= 2)
 
 
 # --------------------------------------------------------------------------- canonical forms
@@ -112,7 +210,7 @@ def answer(fn):
 def ser_request(dom, cod, boxes, offsets, xs):
     toks = [str(dom), str(cod), str(len(boxes))]
     for b in boxes:
-        toks += [b.name, str(len(b.dom)), str(len(b.cod))]
+        toks += [tok_of(b), str(len(b.dom)), str(len(b.cod))]
     toks += [str(len(offsets))] + [str(int(o)) for o in offsets]
     toks += [str(len(xs))] + [show(x) for x in xs]
     return " ".join(toks)
@@ -135,7 +233,7 @@ def splice(dom, boxes, offsets, xs):
         wires = list(xs)
         for box, off in zip(boxes, offsets):
             m, n = len(box.dom), len(box.cod)
-            out = box.function(*wires[off:off + m])
+            out = box._c19fn(*wires[off:off + m])
             outs = list(out) if isinstance(out, tuple) else [out]
             if len(outs) != n or any(isinstance(o, tuple) for o in outs):
                 scope[0] = False
@@ -158,8 +256,20 @@ def as_wires(value):
 # --------------------------------------------------------------------------- generators
 
 class Gen:
-    def __init__(self, rng, max_width, max_depth, max_arity=3):
+    def __init__(self, rng, max_width, max_depth, max_arity=3, names="unique"):
         self.rng, self.W, self.D, self.A = rng, max_width, max_depth, max_arity
+        self.names, self.seen = names, []      # unique | disco | few
+
+    def box(self, tok, m, n, clean=True):
+        """A box for `tok` under this generator's naming policy; now and then the function is
+        handed over inside a falsy callable."""
+        r = self.rng
+        wrap = r.choice(sorted(WRAPS)) if clean and r.random() < 0.06 else None
+        if self.names == "disco":
+            return make_box(tok, m, n, name="<lambda>", wrap=wrap, via_disco=True)
+        if self.names == "few":
+            return make_box(tok, m, n, name=r.choice(SHARED_NAMES), wrap=wrap)
+        return make_box(tok, m, n, wrap=wrap)
 
     def token(self, m, n, flavour):
         """A pool token for a box declared m -> n.  flavour: clean | tuplewire | badarity."""
@@ -187,12 +297,19 @@ class Gen:
             opts += ["discard"] * (2 if m == 1 else 1)
         if (m, n) == (1, 1):
             opts += ["scale:%d" % r.randint(-3, 4), "pack:1"]
+        if m == n:
+            opts += ["ident:%d" % m]
         if n == 1 and m >= 1:
             opts += ["proj:%d:%d" % (m, r.randrange(m))]
         return r.choice(opts)
 
     def arities(self, width):
         r = self.rng
+        if self.names != "unique" and self.seen and r.random() < 0.5:
+            # shared names only collide on equal arities: reuse one already in the diagram
+            fits = [(m, n) for m, n in self.seen if m <= width and width - m + n <= self.W]
+            if fits:
+                return r.choice(fits)
         m = r.randint(0, min(self.A, width))
         n = r.randint(0, min(self.A, self.W - (width - m)))
         return m, n
@@ -208,7 +325,9 @@ class Gen:
                 n = 1
                 if width - m + 1 > self.W:
                     m = 1
-            out.append((make_box(self.token(m, n, fl), m, n), r.randint(0, width - m)))
+            out.append((self.box(self.token(m, n, fl), m, n, clean=(fl == "clean")),
+                        r.randint(0, width - m)))
+            self.seen.append((m, n))
             width = width - m + n
         return out, width
 
@@ -266,21 +385,32 @@ class Cases:
 
 
 def check_call(rep, cases, d, xs, how, flavour, stream="call"):
-    """Real call, model call, oracle; returns the real answer string."""
+    """Real call, model call (when every box has a model token), oracle; returns the real answer."""
     boxes, offsets = list(d.boxes), list(d.offsets)
     real = answer(lambda: d(*xs))
-    meta = dict(built=how, flavour=flavour, diagram=repr(d)[:300], inputs=repr(xs))
-    cases.add(stream, "ccall " + ser_diagram_call(d, xs), real, meta,
-              nontrivial=len(boxes) >= 2 and real.startswith("ok"))
+    meta = dict(built=how, flavour=flavour, diagram=safe_repr(d), inputs=repr(xs),
+                tokens=" ".join(str(tok_of(b)) for b in boxes)[:300])
+    modelled = all(tok_of(b) is not None for b in boxes)
+    nontrivial = len(boxes) >= 2 and real.startswith("ok")
+    if name_collisions(boxes):
+        rep.count("names:same_name_and_arity_different_function")
+    if any(b._c19falsy for b in boxes):
+        rep.count("functions:falsy_callable_in_diagram")
+    if modelled:
+        cases.add(stream, "ccall " + ser_diagram_call(d, xs), real, meta, nontrivial=nontrivial)
+    else:
+        rep.case("oracle-only %s %s %r" % (stream, meta["diagram"], xs), nontrivial)
+        rep.count("stream:%s(oracle only)" % stream)
     # the oracle: independent interpreter of the statement, on the real diagram's own fields
     try:
         wires, in_scope = splice(len(d.dom), boxes, offsets, xs)
         want = "ok " + show(pack_result(wires))
         run_line = "ok " + show(tuple(wires))
     except Exception as exc:
-        want, in_scope = "err " + err_class(exc), exc.in_scope
+        want, in_scope = "err " + err_class(exc), getattr(exc, "in_scope", True)
         run_line = want
-    cases.add("run", "crun " + ser_diagram_call(d, xs), run_line, meta)
+    if modelled:
+        cases.add("run", "crun " + ser_diagram_call(d, xs), run_line, meta)
     rep.count("scope:" + ("in" if in_scope else "out(%s)" % flavour))
     if in_scope and real != want:
         rep.fail("call_ne_splice:" + flavour, meta,
@@ -290,6 +420,26 @@ def check_call(rep, cases, d, xs, how, flavour, stream="call"):
     return real
 
 
+def check_box_alone(rep, cases, b, bx):
+    """A Box called directly (the functor's Box branch): model when it has a token, oracle always."""
+    got = []
+    breal = answer(lambda: (got.append(b(*bx)), got[0])[1])
+    where = dict(box=b.name, token=str(tok_of(b)), inputs=repr(bx))
+    if tok_of(b) is not None:
+        cases.add("box", "cbox %s %d %d %d %s" % (
+            tok_of(b), len(b.dom), len(b.cod), len(bx), " ".join(show(x) for x in bx)), breal, where)
+    else:
+        rep.case("oracle-only box %s %r" % (b.name, bx), False)
+    try:
+        bw, ok = splice(len(b.dom), [b], [0], bx)
+        good = bool(got) and as_wires(got[0]) == bw
+    except Exception as exc:
+        ok, good = getattr(exc, "in_scope", True), breal == "err " + err_class(exc)
+    if ok and not good:
+        rep.fail("box_call_ne_splice", where, "Box called directly gives %s" % breal)
+    return breal
+
+
 def run(tier, seed, replay=None):
     from discopy import cartesian
     from discopy.cartesian import Diagram, Id, Swap, Copy, Discard
@@ -297,7 +447,9 @@ def run(tier, seed, replay=None):
     rep = Report(PROP, tier, seed)
     rep.rule = ("random cartesian diagrams grown layer by layer (width 0-%d, box arities 0..3 in and "
                 "out, depth 0-%d), built with the public constructor and with >>/@, called on random "
-                "integer tuples; Swap/Copy/Discard of all widths 0-%d; non-trivial = a successful "
+                "integer tuples, box names unique / all '<lambda>' via disco / drawn from a few shared "
+                "names, functions also handed over as falsy callables or identity sub-diagrams; "
+                "Swap/Copy/Discard of all widths 0-%d; non-trivial = a successful "
                 "call of a diagram with >= 2 boxes; distinct by request line"
                 % ((8, 24, 6) if thorough else (6, 10, 4)))
     rep.partial = []
@@ -310,6 +462,7 @@ def run(tier, seed, replay=None):
         "harness); the theorems quantify over arbitrary functions"]
     rep.lean = lean_obligations(PROP, thorough=thorough)
     rng = random.Random(seed)
+    tag_generators()
     drv = Driver()
     cases = Cases(rep)
     W, D = (8, 24) if thorough else (6, 10)
@@ -318,7 +471,9 @@ def run(tier, seed, replay=None):
     try:
         # ---- stream call / run / box / mk
         for k in range(n_cases):
-            g = Gen(random.Random(rng.getrandbits(64)), W, D)
+            policy = ("unique", "unique", "disco", "few")[(k // 2) % 4]
+            g = Gen(random.Random(rng.getrandbits(64)), W, D, names=policy)
+            rep.count("names:" + policy)
             r = g.rng
             dom = r.randint(0, W)
             depth = r.choice([0, 1, 1, 2, 3]) if r.random() < 0.3 else r.randint(0, D)
@@ -344,7 +499,7 @@ def run(tier, seed, replay=None):
                 how, d = "ops", build_ops(r, dom, layers)
                 if [id(b) for b in d.boxes] != [id(b) for b, _ in layers] \
                         or list(d.offsets) != [o for _, o in layers] or len(d.cod) != cod:
-                    rep.fail("ops_build_differs", dict(layers=repr(layers)[:300]),
+                    rep.fail("ops_build_differs", dict(layers=safe_repr(layers)),
                              ">>/@ built boxes/offsets %r differ from the requested layers" % (
                                  list(d.offsets),))
             rep.count("built:" + how)
@@ -353,19 +508,7 @@ def run(tier, seed, replay=None):
             if layers and k % 5 == 0:                        # a Box called directly
                 b = r.choice(layers)[0]
                 bx = g.inputs(len(b.dom)) if r.random() < 0.9 else g.inputs(len(b.dom) + 1)
-                got = []
-                breal = answer(lambda: (got.append(b(*bx)), got[0])[1])
-                cases.add("box", "cbox %s %d %d %d %s" % (
-                    b.name, len(b.dom), len(b.cod), len(bx), " ".join(show(x) for x in bx)), breal,
-                    dict(box=b.name, inputs=repr(bx)))
-                try:
-                    bw, ok = splice(len(b.dom), [b], [0], bx)
-                    good = bool(got) and as_wires(got[0]) == bw
-                except Exception as exc:
-                    ok, good = exc.in_scope, breal == "err " + err_class(exc)
-                if ok and not good:
-                    rep.fail("box_call_ne_splice", dict(box=b.name, inputs=repr(bx)),
-                             "Box called directly gives %s" % breal)
+                check_box_alone(rep, cases, b, bx)
             if k % 10 == 3 and layers:                       # ill-typed constructor request
                 bs, os_ = [b for b, _ in layers], [o for _, o in layers]
                 what = r.choice(["cod", "neg", "far", "len", "shift"])
@@ -470,10 +613,89 @@ def run(tier, seed, replay=None):
                 if not ok:
                     rep.fail("exotic_values:" + name, case, "got %r, expected wires %r" % (got, want))
 
+        # ---- stream samename: several boxes of one diagram share name and arity but wrap
+        # different functions (disco-wrapped lambdas are all called '<lambda>'; a user box called
+        # 'swap' next to the library's SWAP); each box must be evaluated with its OWN function
+        for k in range(400 if thorough else 90):
+            r = random.Random(rng.getrandbits(64))
+            g = Gen(r, W, D)
+            m = r.choice([1, 1, 2, 2, 3])
+            name = r.choice(SHARED_NAMES)
+            count = r.randint(2, 4)
+            toks = []
+            while len(toks) < count:
+                t = g.token(m, m, "clean")
+                if t not in toks and not t.startswith(("pack", "ident")):
+                    toks.append(t)
+            bs = [make_box(t, m, m, name=name, via_disco=(name == "<lambda>")) for t in toks]
+            if m == 2 and name == "swap":
+                bs[r.randrange(count)] = cartesian.SWAP
+            if m == 1 and r.random() < 0.3:
+                bs.append(bs[0])                           # the same box twice is fine too
+            xs = g.inputs(m)
+            seq, par = bs[0], bs[0]
+            for b in bs[1:]:
+                seq, par = seq >> b, par @ b
+            shapes = [("seq", seq, xs),
+                      ("public", Diagram(m, m, bs, [0] * len(bs)), xs),
+                      ("par", par, g.inputs(m * len(bs))),
+                      ("mixed", bs[0] @ bs[1] >> Swap(m, m) >> bs[-1] @ bs[0] >> Id(m) @ bs[1],
+                       g.inputs(2 * m)),
+                      ("copy", bs[0] >> Copy(m) >> bs[1] @ bs[-1], xs)]
+            for how, d, args in shapes:
+                rep.count("samename:" + how)
+                check_call(rep, cases, d, args, "samename:" + how, "clean", stream="samename")
+        cases.flush(drv)
+
+        # ---- stream hier: boxes whose function is itself a cartesian diagram (identity sub-diagrams
+        # are falsy: bool(diagram) is len(boxes) != 0) or another falsy callable; called alone and
+        # inside diagrams built both ways.  Sub-diagram boxes have no model token: oracle only.
+        for k in range(400 if thorough else 90):
+            r = random.Random(rng.getrandbits(64))
+            g = Gen(r, W, D)
+            pre, w = g.layers(r.randint(0, W), r.randint(0, 3))
+            kind = ("ident", "sub", "wrap", "unit")[k % 4]
+            if kind == "ident":
+                m = r.randint(0, min(3, w))
+                special = make_box("ident:%d" % m, m, m, name=r.choice(["wires", "id", "f"]))
+            elif kind == "unit":
+                special = make_box("ident:0", 0, 0, name="unit")
+            elif kind == "sub":
+                a = r.randint(0, min(3, w))
+                gi = Gen(r, min(W, W - (w - a)), 4)
+                il, ic = gi.layers(a, r.randint(0, 4))
+                inner = build_public(a, ic, il) if r.random() < 0.5 else build_ops(r, a, il)
+                special = sub_box(r.choice(["sub", "f", "<lambda>"]), inner)
+            else:
+                m = r.randint(0, min(3, w))
+                n = r.randint(0, min(3, W - (w - m)))
+                special = make_box(g.token(m, n, "clean"), m, n, wrap=r.choice(sorted(WRAPS)),
+                                   name=r.choice([None, "lookup", "f"]))
+            sm, sn = len(special.dom), len(special.cod)
+            off = r.randint(0, w - sm)
+            post, cod = g.layers(w - sm + sn, r.randint(0, 3))
+            layers = pre + [(special, off)] + post
+            # the domain the `pre` layers started from
+            start = w
+            for b, _ in reversed(pre):
+                start = start - len(b.cod) + len(b.dom)
+            rep.count("hier:" + kind)
+            xs = g.inputs(start)
+            d = build_public(start, cod, layers) if k % 8 < 4 else build_ops(r, start, layers)
+            check_call(rep, cases, d, xs, "hier:" + kind, "clean", stream="hier")
+            check_box_alone(rep, cases, special, g.inputs(sm))
+            if kind != "sub" and sm == sn:               # naturality of copy / discard for that box
+                args = g.inputs(sm)
+                for how, dd in (("copy", special >> Copy(sm)), ("copy'", Copy(sm) >> special @ special),
+                                ("discard", special >> Discard(sm))):
+                    check_call(rep, cases, dd, args, "hier:" + how, "clean", stream="hier")
+        cases.flush(drv)
+
         # ---- stream natural: the cartesian axioms on the real code (both sides also on the model)
         n_nat = 600 if thorough else 120
         for k in range(n_nat):
-            g = Gen(random.Random(rng.getrandbits(64)), SW, 5)
+            g = Gen(random.Random(rng.getrandbits(64)), SW, 5,
+                    names=("unique", "disco", "few")[k % 3])
             r = g.rng
             fd, gd = r.randint(0, SW), r.randint(0, SW)
             fl, fc = g.layers(fd, r.randint(0, 5))
@@ -492,7 +714,7 @@ def run(tier, seed, replay=None):
             ]
             for name, mk_lhs, mk_rhs, args in laws[:3] + [laws[3 + k % 4]]:
                 rep.count("law:" + name)
-                where = dict(f=repr(f)[:200], g=repr(h)[:200], args=repr(args))
+                where = dict(f=safe_repr(f, 200), g=safe_repr(h, 200), args=repr(args))
                 try:
                     lhs, rhs = mk_lhs(), mk_rhs()
                 except Exception as exc:
